@@ -8,7 +8,9 @@
 package main
 
 import (
+	"encoding/json"
 	"fmt"
+	"os"
 	"sort"
 	"strings"
 	"time"
@@ -499,7 +501,7 @@ func main() {
 		Level: "model_checking",
 		Rule: "15 multi-threaded Elk scenarios (producer/consumer at capacities 0,1,2; two producers; close racing push; select with ready/unready cases; mutex-protected read-modify-write; RWMutex writer vs readers; WaitGroup; Once; stray read_unlock/unlock racing a pending reader/writer; two concurrent unlocks of one lock) on the real VM under the controlled scheduler: every schedule with at most B preemptions (quick 2, thorough 3) over scheduling points at every channel/lock/wait-group/once/go/select operation and after every release, ready select cases enumerated instead of random; " +
 			"plus 10 single-threaded misuse sequences (unlock not held, negative wait group, push/pop/close on closed channel) that must raise Elk errors; oracle per scenario: delivery exactly once, per-producer FIFO, select takes only ready cases, mutual exclusion, run-once, no deadlock, no host panic/fatal; non-trivial = scenarios with at least 50 schedules",
-		Assume:      []string{"interpreter code between scheduling points runs atomically (critical sections contain an inner lock operation so that broken exclusion is observable)", "timers not modelled"},
+		Assume:      []string{"interpreter code between scheduling points runs atomically (critical sections contain an inner lock operation so that broken exclusion is observable)", "timers not modelled", "accesses racing between scheduling points are reported by the supplementary free-running pass under Go's race detector (case racepass/scenarios; the detector's send-racing-close report is an ordering diagnostic with a defined outcome and is ignored)"},
 		CaseTimeout: 15 * time.Minute,
 		Setup: func(c *engine.Ctx) {
 			elkrun.Init()
@@ -516,6 +518,26 @@ func main() {
 				sc := sc
 				c.Case(fmt.Sprintf("%s/bound=%d", sc.name, bound), func(r *engine.R) { explore(r, sc, bound) })
 			}
+			// free-running companion pass under Go's race detector: the same scenario programs on the uninstrumented
+			// VM with real goroutines (see engine.RacePass); supplements the exploration, decides nothing alone
+			c.Case("racepass/scenarios", func(r *engine.R) {
+				type js struct {
+					Name string `json:"name"`
+					Src  string `json:"src"`
+				}
+				var l []js
+				for _, sc := range scens {
+					l = append(l, js{sc.name, sc.src})
+				}
+				b, _ := json.Marshal(l)
+				f := "/verif/.work/c25-racepass.json"
+				os.WriteFile(f, b, 0o644)
+				rounds := "30"
+				if c.Thorough {
+					rounds = "300"
+				}
+				engine.RacePass(r, "sync primitives", 15*time.Minute, "elk", f, rounds)
+			})
 			for _, m := range misuses {
 				m := m
 				c.Case("misuse/"+m.name, func(r *engine.R) {
